@@ -208,9 +208,11 @@ def main(argv):
     }
     if errors:
         ev["coverage"]["errors"] = errors
-    os.makedirs(os.path.join(VERIF, "evidence"), exist_ok=True)
+    # seeded-change experiments (vp/try_seed*.sh) set VERIF_EVIDENCE_DIR so that they do not overwrite the record of the real tree
+    evdir = os.environ.get("VERIF_EVIDENCE_DIR") or os.path.join(VERIF, "evidence")
+    os.makedirs(evdir, exist_ok=True)
     if not a.only:
-        with open(os.path.join(VERIF, "evidence", prop + ".json"), "w") as f:
+        with open(os.path.join(evdir, prop + ".json"), "w") as f:
             json.dump(ev, f, indent=1)
     for k in known_hits:
         print(f"KNOWN-FINDING: property={prop} {k}")
